@@ -20,18 +20,44 @@ fn supervise(ctx: &Ctx, args: &[String]) -> i32 {
     let scratch = child::scratch_dir();
     let journal = scratch.join("journal.txt");
     let _ = std::fs::remove_file(&journal);
-    let status = std::process::Command::new(&exe)
+    // a wall-clock watchdog around the whole inner run: its firing is inconclusive, never a verdict
+    let limit_s: u64 = std::env::var("VERIF_WATCHDOG_S").ok().and_then(|v| v.parse().ok()).unwrap_or(match ctx.tier {
+        Tier::Quick => 3600,
+        Tier::Thorough => 6 * 3600,
+    });
+    let spawned = std::process::Command::new(&exe)
         .args(&args[1..])
         .env("VERIF_INNER", "1")
         .env("VERIF_JOURNAL", &journal)
         .env("VERIF_SCRATCH", &scratch)
-        .status();
-    let status = match status {
-        Ok(s) => s,
+        .spawn();
+    let mut child = match spawned {
+        Ok(c) => c,
         Err(e) => {
             println!("INCONCLUSIVE property={} reason=cannot-spawn-inner-process:{}", ctx.id, e);
             let _ = std::fs::remove_dir_all(&scratch);
             return 2;
+        }
+    };
+    let started = std::time::Instant::now();
+    let status = loop {
+        match child.try_wait() {
+            Ok(Some(st)) => break st,
+            Ok(None) => {
+                if started.elapsed().as_secs() > limit_s {
+                    let _ = child.kill();
+                    let _ = child.wait();
+                    println!("INCONCLUSIVE property={} reason=watchdog-fired-after-{}s", ctx.id, limit_s);
+                    let _ = std::fs::remove_dir_all(&scratch);
+                    return 2;
+                }
+                std::thread::sleep(std::time::Duration::from_millis(100));
+            }
+            Err(e) => {
+                println!("INCONCLUSIVE property={} reason=cannot-wait-for-inner-process:{}", ctx.id, e);
+                let _ = std::fs::remove_dir_all(&scratch);
+                return 2;
+            }
         }
     };
     if let Some(code) = status.code() {
